@@ -57,6 +57,15 @@ Props(s0, R, op, out) ==
 \* ---- 2. the compression matrix
 \* wire format = what the server's converters produce; the client decodes with its own
 MatrixRequired(clientComp, serverComp) == IF clientComp = serverComp THEN "ok" ELSE "error"
+\* the upstream object of the requested chunk is damaged ("garbage": neither a zstd frame nor the chunk; "truncated"; "empty")
+\* and the server reads its upstream store without verification (the chunk server's default).  A hop that has to zstd-DECODE
+\* damaged bytes must fail: the server when the upstream is compressed and it serves plain chunks; the client when it expects
+\* compressed chunks and the server passed the object through (upstream format = wire format).  A verifying client always
+\* fails.  An empty object decodes to an empty chunk without an error, so only verification catches it.  Where nobody has
+\* to look at the bytes they may be handed on ("okbad": delivered, and not the chunk).  Never "ok", never "missing".
+DamagedAllowed(clientComp, serverComp, upComp, verify, damage) ==
+  IF verify \/ (damage # "empty" /\ ((upComp /\ ~serverComp) \/ (clientComp /\ upComp = serverComp)))
+  THEN {"error"} ELSE {"error", "okbad"}
 
 CONSTANTS MaxLen, Budgets
 Responses == {"200", "201", "404", "400", "403", "500", "503", "reset", "short"}
